@@ -9,6 +9,7 @@ from __future__ import annotations
 import asyncio
 import json
 import logging
+import os
 import sys
 import time
 import traceback
@@ -140,10 +141,12 @@ def scenario_producer():
         b = json.dumps(c2.trace, default=str)
         check(a == b, "two runs with the same seed produced different traces")
         dup = sum(1 for e in c.trace if e["ev"] == "apply" and e["outcome"] == "duplicate")
+        stored = sum(len(c.read_uncommitted(("t", part))) for part in range(3))
+        fired = [e["kind"] for e in c.trace if e["ev"] == "fault"]
         yield (
-            f"idempotent={idempotent}: acked={len(acked)} failed={len(failed)} "
-            f"requests={c.n_requests} broker-side duplicates={dup} vt={c.now():.2f}s "
-            f"wall={wall:.2f}s"
+            f"idempotent={idempotent}: acked={len(acked)} failed={len(failed)} stored={stored} "
+            f"requests={c.n_requests} faults fired={len(fired)} broker-side dedup={dup} "
+            f"vt={c.now():.2f}s wall={wall:.2f}s"
         )
 
 
@@ -547,16 +550,214 @@ def scenario_stop():
     yield f"connections opened=closed={opened} vt={c.now():.2f}s wall={wall:.2f}s"
 
 
+# ---------------------------------------------------------------------------------------------
+# 6. environment features: version pinning, LogAppendTime, acks=0, failover, hang detection,
+#    several runs on one cluster
+# ---------------------------------------------------------------------------------------------
+async def _pinned_workload():
+    p = AIOKafkaProducer(bootstrap_servers=BOOT, client_id="vp")
+    await p.start()
+    for i in range(10):
+        await p.send_and_wait("t", b"v%d" % i, partition=0, timestamp_ms=1000 + i)
+    c = AIOKafkaConsumer(
+        "t", bootstrap_servers=BOOT, client_id="vc", group_id="vg", auto_offset_reset="earliest"
+    )
+    await c.start()
+    got = []
+    while len(got) < 10:
+        for _tp, msgs in (await c.getmany(timeout_ms=200)).items():
+            got += [(m.offset, m.value, m.timestamp) for m in msgs]
+    tp = TopicPartition("t", 0)
+    by_time = await c.offsets_for_times({tp: 1004})
+    end = await c.end_offsets([tp])
+    await c.stop()
+    await p.stop()
+    return got, by_time[tp].offset, end[tp]
+
+
+async def _lat_workload():
+    p = AIOKafkaProducer(bootstrap_servers=BOOT, client_id="lp")
+    p0 = AIOKafkaProducer(bootstrap_servers=BOOT, client_id="lp0", acks=0)
+    await p.start()
+    await p0.start()
+    md = await p.send_and_wait("lat", b"x", partition=0, timestamp_ms=123)
+    await p0.send_and_wait("t", b"noack", partition=1, timestamp_ms=5)
+    await asyncio.sleep(0.01)
+    c = AIOKafkaConsumer(bootstrap_servers=BOOT, client_id="lc", auto_offset_reset="earliest")
+    await c.start()
+    c.assign([TopicPartition("lat", 0)])
+    m = await c.getone()
+    await c.stop()
+    await p.stop()
+    await p0.stop()
+    return (md.timestamp, md.timestamp_type), (m.timestamp, m.timestamp_type)
+
+
+async def _failover_workload(cluster):
+    p = AIOKafkaProducer(
+        bootstrap_servers=BOOT, client_id="fp", enable_idempotence=True, request_timeout_ms=3000
+    )
+    c = AIOKafkaConsumer(
+        "t",
+        bootstrap_servers=BOOT,
+        client_id="fc",
+        group_id="fg",
+        auto_offset_reset="earliest",
+        request_timeout_ms=3000,
+        session_timeout_ms=6000,
+        heartbeat_interval_ms=500,
+    )
+    await p.start()
+    await c.start()
+    got = []
+
+    async def produce(tag):
+        for i in range(30):
+            await p.send("t", b"%s%d" % (tag, i), partition=i % 3, timestamp_ms=now_ms())
+        await p.flush()
+
+    async def consume(n):
+        while len(got) < n:
+            for tp, msgs in (await c.getmany(timeout_ms=200)).items():
+                got.extend((tp.partition, m.offset, m.value) for m in msgs)
+
+    await produce(b"a")
+    await consume(30)
+    cluster.move_coordinator("group", "fg", 1, keep_state=True)
+    cluster.kill_node(0, migrate_leaders=True)
+    await produce(b"b")
+    await consume(60)
+    await asyncio.sleep(3)  # heartbeats meet the dead node, then the new coordinator
+    cluster.revive_node(0)
+    cluster.move_coordinator("group", "fg", 0, keep_state=False)
+    await produce(b"c")
+    await consume(90)
+    await asyncio.sleep(8)  # let the member find its coordinator again before stop()
+    await c.stop()
+    await p.stop()
+    return got
+
+
+async def _hang_workload(cluster):
+    p = AIOKafkaProducer(bootstrap_servers=BOOT, client_id="hp")
+    await p.start()
+    for i in range(5):
+        await p.send_and_wait("t", b"h%d" % i, partition=0, timestamp_ms=now_ms())
+    await p.stop()
+    c = AIOKafkaConsumer(
+        "t", bootstrap_servers=BOOT, client_id="hc", group_id="hg", auto_offset_reset="earliest"
+    )
+    await c.start()
+    n = 0
+    while n < 5:
+        for _tp, msgs in (await c.getmany(timeout_ms=200)).items():
+            n += len(msgs)
+    cluster.kill_node(0)
+    cluster.kill_node(1)
+    await c.stop()  # unchanged library: retries the last commit for ever
+    return "stop() returned"
+
+
+def scenario_environment():
+    from . import SimTimeout
+
+    # pinned protocol versions
+    pins = {
+        "Produce": (0, 2), "Fetch": (0, 3), "ListOffsets": (0, 1), "JoinGroup": (0, 2),
+        "SyncGroup": (0, 1), "Metadata": (0, 1), "OffsetCommit": (2, 2), "OffsetFetch": (1, 1),
+        "FindCoordinator": (0, 0), "Heartbeat": (0, 0), "LeaveGroup": (0, 0),
+    }  # fmt: skip
+    for label, pin in (("old", pins), ("new", {"Produce": (0, 7), "Fetch": (0, 11)})):
+        c = SimCluster(nodes=2, seed=21, api_versions=pin)
+        c.paranoid = True
+        got, by_time, end = run(_pinned_workload(), c, max_vt=120)
+        check(got == [(i, b"v%d" % i, 1000 + i) for i in range(10)], f"{label}: {got}")
+        check((by_time, end) == (4, 10), f"{label}: offsets_for_times/end = {by_time}, {end}")
+        used = {(e["api"], e["version"]) for e in c.trace if e["ev"] == "request"}
+        for api, (lo, hi) in pin.items():
+            vs = [v for a, v in used if a == api]
+            check(all(lo <= v <= hi for v in vs), f"{label}: {api} used {vs}")
+        check(leftover_empty(c.leftover), f"leftover: {c.leftover}")
+    yield "pinned api versions honoured (old and new sets)"
+
+    # LogAppendTime, acks=0
+    c = SimCluster(nodes=2, seed=22, topics={"t": 3, "lat": 1})
+    c.paranoid = True
+    c.topic_config["lat"] = {"log_append_time": True}
+    ack, seen = run(_lat_workload(), c, max_vt=120)
+    check(ack[1] == 1 and ack == seen and ack[0] > 1_600_000_000_000, f"LogAppendTime: {ack} {seen}")
+    check([r[2] for r in c.read_uncommitted(("t", 1))] == [b"noack"], "acks=0 record missing")
+    check(
+        not any(e["ev"] == "reply" and e["client"] == "lp0" and e["api"] == "Produce" for e in c.trace),
+        "acks=0 produce was answered",
+    )
+    yield f"LogAppendTime timestamp={ack[0]} type=1; acks=0 applied without reply"
+
+    # broker death, leader migration, coordinator moves with and without state
+    c = SimCluster(nodes=2, seed=23)
+    c.paranoid = True
+    c.coordinator_load_time = 0.7
+    got = run(_failover_workload(c), c, max_vt=300)
+    check(len(set(got)) == 90, f"failover: {len(set(got))} distinct records of 90")
+    check(leftover_empty(c.leftover), f"leftover: {c.leftover}")
+    codes = sorted({e["outcome"] for e in c.trace if e["ev"] == "group" and isinstance(e["outcome"], int)})
+    yield f"failover: 90/90 records, {len(got) - 90} re-deliveries, group error codes seen {codes}"
+
+    # a hang is reported as SimTimeout, quickly, with the place where the coroutine waits
+    c = SimCluster(nodes=2, seed=24)
+    t0 = time.perf_counter()
+    try:
+        res = run(_hang_workload(c), c, max_vt=600)
+    except SimTimeout as exc:
+        res = f"SimTimeout ({exc.where[-1] if exc.where else '?'})"
+        check(c.leftover["tasks"], "no leftover tasks reported for a hang")
+    check(time.perf_counter() - t0 < 8, "hang detection too slow")
+    yield f"consumer.stop() with every broker dead: {res}"
+
+    # one cluster, several runs: clock and data carry over
+    c = SimCluster(nodes=2, seed=25)
+
+    async def first():
+        p = AIOKafkaProducer(bootstrap_servers=BOOT, client_id="r1")
+        await p.start()
+        for i in range(5):
+            await p.send_and_wait("t", b"r%d" % i, partition=0, timestamp_ms=now_ms())
+        await p.stop()
+
+    async def second():
+        cons = AIOKafkaConsumer(bootstrap_servers=BOOT, client_id="r2", auto_offset_reset="earliest")
+        await cons.start()
+        cons.assign([TopicPartition("t", 0)])
+        out = []
+        while len(out) < 5:
+            for _tp, msgs in (await cons.getmany(timeout_ms=200)).items():
+                out += [m.value for m in msgs]
+        await cons.stop()
+        return out
+
+    run(first(), c)
+    t1 = c.now()
+    out = run(second(), c)
+    check(out == [b"r%d" % i for i in range(5)] and c.now() > t1 > 0 and c.runs == 2, f"{out}")
+    yield f"two runs on one cluster: vt {t1:.3f}s -> {c.now():.3f}s"
+
+
 SCENARIOS = [
     ("producer", scenario_producer),
     ("consumer_group", scenario_group),
     ("transactions", scenario_txn),
     ("simple_consumer", scenario_simple_consumer),
     ("stop_leftover", scenario_stop),
+    ("environment", scenario_environment),
 ]
 
 
 def main(argv):
+    if os.environ.get("PYTHONHASHSEED") != "0":
+        # aiokafka iterates over sets of strings: fix the hash seed so that every process
+        # produces the same traces
+        env = dict(os.environ, PYTHONHASHSEED="0")
+        os.execve(sys.executable, [sys.executable, "-m", "sim.selftest", *argv], env)
     verbose = "-v" in argv
     names = [a for a in argv if not a.startswith("-")]
     logging.basicConfig(level=logging.WARNING if verbose else logging.CRITICAL)
